@@ -115,4 +115,5 @@ def inject(workload, base, rel_paths, op, scratch):
     # parent ends with an error of its own
     killed = bool(victims) and (p.returncode in (137, -9) or workload.endswith("p"))
     return dict(rc=p.returncode, killed=killed, matched=killed and bool(last),
-                tail=last.replace(" <unfinished ...>", " = ?").strip()[:200], victims=len(victims))
+                tail=last.replace(" <unfinished ...>", " = ?").strip()[:200], victims=len(victims),
+                stdout=p.stdout[-4000:])
